@@ -572,6 +572,7 @@ func (ex *Exec) globalObj(g *ssa.Global) *Object {
 		return o
 	}
 	o := ex.newObj(g.Type().(*types.Pointer).Elem(), "global "+g.Name())
+	o.Global = g
 	ex.globals[g] = o
 	return o
 }
@@ -580,6 +581,12 @@ func (ex *Exec) globalObj(g *ssa.Global) *Object {
 func (fr *Frame) heapGet(o *Object) Value {
 	if v, ok := fr.heap[o]; ok {
 		return v
+	}
+	if o.Global != nil {
+		if v, ok := fr.ex.nativeGlobalInit(fr, o.Global); ok {
+			fr.heap[o] = v
+			return v
+		}
 	}
 	v := fr.ex.zero(o.Typ)
 	fr.heap[o] = v
@@ -772,7 +779,7 @@ func (ex *Exec) strConst(s string) *VStr {
 	for i := 0; i < len(s); i++ {
 		b[i] = ex.ts.BV(uint64(s[i]), 8)
 	}
-	return &VStr{Len: ex.ts.BV(uint64(len(s)), 64), B: b}
+	return &VStr{Len: ex.ts.BV(uint64(len(s)), 64), B: b, Alts: []StrAlt{{ex.ts.True, s}}}
 }
 
 func (fr *Frame) unop(i *ssa.UnOp) Value {
@@ -957,6 +964,15 @@ func (ex *Exec) strConcat(a, b *VStr) *VStr {
 	}
 	if b.Len.IsConst() && b.Len.Val == 0 {
 		return a
+	}
+	if a.Alts != nil && b.Alts != nil && len(a.Alts)*len(b.Alts) <= 256 {
+		var alts []StrAlt
+		for _, p := range a.Alts {
+			for _, q := range b.Alts {
+				alts = append(alts, StrAlt{ts.And(p.G, q.G), p.S + q.S})
+			}
+		}
+		return ex.strFromAlts(alts)
 	}
 	n := len(a.B) + len(b.B)
 	out := &VStr{Len: ts.Add(a.Len, b.Len), B: make([]*Term, n)}
@@ -1180,6 +1196,26 @@ func (fr *Frame) sliceOp(i *ssa.Slice) Value {
 
 func (ex *Exec) strSub(x *VStr, lo, hi *Term) *VStr {
 	ts := ex.ts
+	if x.Alts != nil && lo.CT && hi.CT {
+		var alts []StrAlt
+		var los, his []lowInt
+		collectCT(ts, lo, ts.True, &los)
+		collectCT(ts, hi, ts.True, &his)
+		if len(x.Alts)*len(los)*len(his) <= 256 {
+			for _, a := range x.Alts {
+				for _, l := range los {
+					for _, h := range his {
+						g := ts.And(a.G, l.G, h.G)
+						if g.IsFalse() || l.V > h.V || h.V > uint64(len(a.S)) {
+							continue
+						}
+						alts = append(alts, StrAlt{g, a.S[l.V:h.V]})
+					}
+				}
+			}
+			return ex.strFromAlts(alts)
+		}
+	}
 	if lo.IsConst() {
 		l := int(lo.Val)
 		if l > len(x.B) {
@@ -1607,4 +1643,22 @@ func (fr *Frame) nextOne(itObj *Object) Value {
 	nc.Pos = ts.Add(c.Pos, ts.BV(1, 64))
 	fr.heap[it.Obj] = &nc
 	return &VTuple{[]Value{&VBV{ok}, key, val}}
+}
+
+type lowInt struct {
+	G *Term
+	V uint64
+}
+
+// collectCT enumerates the leaves of an ite-tree with constant leaves together with their path guards.
+func collectCT(ts *TS, t *Term, g *Term, out *[]lowInt) {
+	if g.IsFalse() {
+		return
+	}
+	if t.Op == OConst {
+		*out = append(*out, lowInt{g, t.Val})
+		return
+	}
+	collectCT(ts, t.Args[1], ts.And(g, t.Args[0]), out)
+	collectCT(ts, t.Args[2], ts.And(g, ts.Not(t.Args[0])), out)
 }
